@@ -85,6 +85,7 @@ class SQLStorage(Storage):
         for child_model in (PolicySubjectModel, PolicyResourceModel, PolicyActionModel):
             self.session.query(child_model).filter(child_model.uid == uid).delete()
         self.session.query(PolicyModel).filter(PolicyModel.uid == uid).delete()
+        self.session.commit()
         log.info('Deleted Policy with UID=%s.', uid)
 
     def _get_filtered_cursor(self, inquiry, checker):
